@@ -48,6 +48,22 @@ pub trait V: Sized {
     fn show(&self) -> String;
 }
 
+// real std heap types: the value carries characters that need a JSON escape
+fn std_text(id: u64) -> String { format!("{}\"q\\\n", id) }
+fn std_id(s: &str) -> String { s.chars().take_while(|c| c.is_ascii_digit()).collect() }
+impl V for String {
+    fn mk(id: u64) -> Self { std_text(id) }
+    fn show(&self) -> String { std_id(self) }
+}
+impl V for Box<str> {
+    fn mk(id: u64) -> Self { std_text(id).into_boxed_str() }
+    fn show(&self) -> String { std_id(self) }
+}
+impl V for Vec<u8> {
+    fn mk(id: u64) -> Self { std_text(id).into_bytes() }
+    fn show(&self) -> String { std_id(std::str::from_utf8(self).unwrap()) }
+}
+
 macro_rules! pod {
     ($name:ident, $repr:meta, $inner:ty, $to:expr, $from:expr) => {
         #[derive(Clone, Copy, PartialEq, Debug)]
